@@ -1,7 +1,6 @@
 package types
 
 import (
-	"bytes"
 	"math/big"
 
 	"github.com/MinterTeam/mhub2/module/x/zzverif/vrt"
@@ -34,10 +33,5 @@ func ZZ_Smoke_SdkInt() {
 	if !p {
 		vrt.Assert("smoke.sdkint.add", c.BigInt().Cmp(new(big.Int).Add(a.BigInt(), b.BigInt())) == 0)
 		vrt.Assert("smoke.sdkint.gte", c.GTE(a))
-	}
-	k := MakeSendToExternalKey("minter", vrt.Uint64Below("id", 1<<56), ExternalToken{Amount: a, ExternalTokenId: "12"})
-	k2 := MakeSendToExternalKey("minter", vrt.Uint64Below("id2", 1<<56), ExternalToken{Amount: b, ExternalTokenId: "12"})
-	if a.LT(b) {
-		vrt.Assert("smoke.key.order", bytes.Compare(k, k2) < 0)
 	}
 }
